@@ -18,6 +18,17 @@ type Flow struct {
 	Rounds   int
 	Diverged bool
 	Assume   []*Atom // atoms (possibly with var patterns) assumed true: edges contradicting them are infeasible
+	// RetChoice: for a call to a multi-outcome effectful helper, the return site assumed taken on this exploration
+	// (nil value = "one of its failing returns"); see Walker.splitCalls
+	RetChoice map[ssa.Instruction]*ssa.Return
+	retCache  map[string]Facts
+}
+
+var deadAtom = &Atom{Pred: "dead", Args: []*Term{Const("unreachable")}}
+
+func isDead(f Facts) bool {
+	_, ok := f[deadAtom.Key()]
+	return ok
 }
 
 func isElemOf(t *Term, l *Loop) bool {
@@ -43,7 +54,11 @@ func termAtom(t *Term, site string) *Atom {
 }
 
 func (a *Analyzer) NewFlow(c *FCtx, init Facts, assume ...*Atom) *Flow {
-	f := &Flow{A: a, C: c, Init: init, In: map[*ssa.BasicBlock]Facts{}, loopExit: map[*Loop]Facts{}, Assume: assume}
+	return a.NewFlowRC(c, init, nil, assume...)
+}
+
+func (a *Analyzer) NewFlowRC(c *FCtx, init Facts, rc map[ssa.Instruction]*ssa.Return, assume ...*Atom) *Flow {
+	f := &Flow{A: a, C: c, Init: init, In: map[*ssa.BasicBlock]Facts{}, loopExit: map[*Loop]Facts{}, Assume: assume, RetChoice: rc}
 	f.run()
 	return f
 }
@@ -217,6 +232,9 @@ func (f *Flow) condAtom(in *ssa.If) *Atom {
 }
 
 func (f *Flow) edgeFacts(from *ssa.BasicBlock, succIdx int, out Facts) Facts {
+	if isDead(out) {
+		return nil
+	}
 	res := out.Clone()
 	if ifi, ok := from.Instrs[len(from.Instrs)-1].(*ssa.If); ok {
 		a := f.condAtom(ifi)
@@ -295,6 +313,11 @@ func (f *Flow) transfer(in ssa.Instruction, facts Facts) {
 		if isLoggingCall(c) {
 			return
 		}
+		if ret, ok := f.RetChoice[in]; ok {
+			if f.transferRetChoice(in, c, ret, facts) {
+				return
+			}
+		}
 		w := f.A.callWrites(x)
 		if b, ok := c.Value.(*ssa.Builtin); ok && b.Name() == "delete" {
 			mt := f.C.Term(c.Args[0])
@@ -321,6 +344,26 @@ func (f *Flow) transfer(in ssa.Instruction, facts Facts) {
 					d := &Atom{Pred: "done", Args: []*Term{t}, Site: f.A.P.InstrPos(in)}
 					facts.Add(d)
 					f.addDerived(facts, d)
+					if ret, chosen := f.RetChoice[in]; chosen && ret == nil {
+						// the "failing outcome" exploration of a return-site split: the verdict is known to be negative
+						if g := c.StaticCallee(); g != nil {
+							if sm := f.A.Summary(g); sm != nil && sm.resIdx >= 0 {
+								okTerm := t
+								if sm.nres > 1 {
+									okTerm = mkExt(itoa(sm.resIdx), t)
+								}
+								var na *Atom
+								if sm.resKind == "error" {
+									na = ErrNil(okTerm).Negate()
+								} else {
+									na = Truth(okTerm).Negate()
+								}
+								na.Site = f.A.P.InstrPos(in)
+								facts.Add(na)
+								f.addDerived(facts, na)
+							}
+						}
+					}
 				}
 			}
 		}
@@ -348,6 +391,92 @@ func (f *Flow) out(b *ssa.BasicBlock) Facts {
 		f.transfer(instr, facts)
 	}
 	return facts
+}
+
+// transferRetChoice: the call is assumed to return through the given return site of its (static, library) callee:
+// the facts after the call are the facts at that site (computed with the caller's facts as the callee's entry facts)
+// plus the equalities between the call's results and the values returned there. ret == nil stands for "a failing return".
+func (f *Flow) transferRetChoice(in ssa.Instruction, c *ssa.CallCommon, ret *ssa.Return, facts Facts) bool {
+	g := c.StaticCallee()
+	v, isVal := in.(*ssa.Call)
+	if g == nil || g.Blocks == nil || !isVal {
+		return false
+	}
+	callTerm := f.C.Term(v)
+	if callTerm.Op != "call" {
+		return false
+	}
+	sm := f.A.Summary(g)
+	if sm == nil || sm.resIdx < 0 {
+		return false
+	}
+	okTerm := callTerm
+	if sm.nres > 1 {
+		okTerm = mkExt(itoa(sm.resIdx), callTerm)
+	}
+	var okAtom *Atom
+	if sm.resKind == "error" {
+		okAtom = ErrNil(okTerm)
+	} else {
+		okAtom = Truth(okTerm)
+	}
+	if ret == nil {
+		// failing outcome: ordinary transfer, then the failure is known
+		return false
+	}
+	key := fmtf("%p|%p|%s", in, ret, strings.Join(facts.SortedKeys(), ";"))
+	if f.retCache == nil {
+		f.retCache = map[string]Facts{}
+	}
+	nf, hit := f.retCache[key]
+	if !hit {
+		args := f.C.freeze(v, f.C.args(c.Args))
+		var bindings []*Term
+		if mc, ok := c.Value.(*ssa.MakeClosure); ok {
+			bindings = f.C.args(mc.Bindings)
+		}
+		env := bindEnv(f.A, g, args, bindings)
+		for _, p := range g.Params {
+			if sg := f.A.singletonOf(p.Type()); sg != "" {
+				env[p] = This(sg)
+			}
+		}
+		gc := f.A.NewFCtx(g, env, 0)
+		gfl := f.A.NewFlow(gc, facts.Clone(), f.Assume...)
+		if dead := gfl.DeadEdges(); len(dead) > 0 {
+			gc = f.A.NewFCtx(g, env, 0)
+			gc.DeadEdge = dead
+			gfl = f.A.NewFlow(gc, facts.Clone(), f.Assume...)
+		}
+		if gfl.In[ret.Block()] == nil {
+			nf = Facts{deadAtom.Key(): deadAtom}
+		} else {
+			nf = gfl.At(ret)
+			site := f.A.P.InstrPos(ret)
+			for i, r := range ret.Results {
+				lhs := callTerm
+				if len(ret.Results) > 1 {
+					lhs = mkExt(itoa(i), callTerm)
+				}
+				if i == sm.resIdx {
+					continue
+				}
+				nf.Add(atomOf(Bin("==", lhs, gc.Term(r)), site))
+			}
+			oa := *okAtom
+			oa.Site = site
+			nf.Add(&oa)
+			nf.Add(&Atom{Pred: "done", Args: []*Term{callTerm}, Site: f.A.P.InstrPos(in)})
+		}
+		f.retCache[key] = nf
+	}
+	for k := range facts {
+		delete(facts, k)
+	}
+	for k, a := range nf {
+		facts[k] = a
+	}
+	return true
 }
 
 // unitPropagate: !and(x1..xn) with all but one conjunct known true gives the negation of the remaining one;
